@@ -709,18 +709,30 @@ def transpose(x, axes=None, out=None, out_like=None, sizing='optimal', method='r
 def clip(a, a_min=None, a_max=None, out=None, out_like=None, sizing='optimal', method='raw', **kwargs):
     """
     """
+    def _raw_bound(bound, x, default):
+        # a bound in raw units of x: a missing bound does not clip, a fixed-point bound counts by its value, NumPy integers
+        # and narrow floats are taken as Python numbers (the product with 2**n_frac must not wrap or round in a narrow type)
+        if bound is None:
+            return default
+        if isinstance(bound, Fxp):
+            bound = bound.get_val()
+        bound = np.asarray(bound)
+        if bound.dtype != object and np.issubdtype(bound.dtype, np.integer):
+            bound = bound.astype(object)
+        elif bound.dtype != object and np.issubdtype(bound.dtype, np.floating) and bound.dtype.itemsize < 8:
+            bound = bound.astype(float)
+        return bound * 2**x.n_frac      # (not in place: the bounds may be the caller's arrays)
+
     def _clip_raw(x, n_frac, **kwargs):
         precision_cast = (lambda m: np.array(m, dtype=object)) if n_frac >= _n_word_max else (lambda m: m)
-        val_min = kwargs.pop('a_min', None)
-        val_max = kwargs.pop('a_max', None)
-
-        if val_min is not None: val_min = val_min * 2**x.n_frac     # (not in place: the bounds may be the caller's arrays)
-        if val_max is not None: val_max = val_max * 2**x.n_frac
+        val_min = _raw_bound(kwargs.pop('a_min', None), x, float('-inf'))
+        val_max = _raw_bound(kwargs.pop('a_max', None), x, float('inf'))
 
         return utils.clip(x.val, val_min=val_min, val_max=val_max) * precision_cast(2**(n_frac - x.n_frac))
 
-    kwargs['a_min'] = a_min
-    kwargs['a_max'] = a_max
+    # (np.clip names its bounds `min` and `max` since NumPy 2.1)
+    kwargs['a_min'] = kwargs.pop('min', a_min)
+    kwargs['a_max'] = kwargs.pop('max', a_max)
     return _function_over_one_var(repr_func=np.clip, raw_func=_clip_raw, x=a, out=out, out_like=out_like, sizing=sizing, method=method, **kwargs)
 
 @implements(np.diagonal)
@@ -763,15 +775,23 @@ def trace(a, offset=0, axis1=0, axis2=1, out=None, out_like=None, sizing='optima
 def prod(a, axis=None, out=None, out_like=None, sizing='optimal', method='raw', **kwargs):
     """
     """
+    def _num_of_products(a, axis):
+        # the number of factors of each product: all elements, the length of one axis, or of several axes
+        if axis is None:
+            return a.size
+        if isinstance(axis, (tuple, list)):
+            return int(np.prod([a.shape[ax] for ax in axis]))
+        return a.shape[axis]
+
     def _prod_raw(x, n_frac, axis=None, **kwargs):
         precision_cast = (lambda m: np.array(m, dtype=object)) if n_frac >= _n_word_max else (lambda m: m)
-        num_of_products = a.size if axis is None else a.shape[axis]
+        num_of_products = _num_of_products(a, axis)
         return np.prod(x.val, axis=axis, **kwargs) * precision_cast(2**(n_frac - num_of_products * x.n_frac))
 
     if not isinstance(a, Fxp):
         a = Fxp(a)
 
-    num_of_products = a.size if axis is None else a.shape[axis]
+    num_of_products = _num_of_products(a, axis)
     signed = a.signed
     n_word = num_of_products * a.n_word
     n_frac = num_of_products * a.n_frac
